@@ -1,11 +1,11 @@
 ----------------------------------- MODULE Sem -----------------------------------
 (* Layer R: what a JSight schema MEANS - which JSON documents it accepts.             *)
 (* Abstract syntax (DESIGN Appendix A.1; all sum types are tagged records):            *)
-(*   Value : [t:"null"] [t:"bool",b] [t:"num",b:<<bytes>>] [t:"str",c:<<code points>>]  *)
+(*   Value : [t:"null"] [t:"bool",bv] [t:"num",b:<<bytes>>] [t:"str",c:<<code points>>]  *)
 (*           [t:"arr",items:<<Value>>] [t:"obj",ps:<<[k,v]>>]   (ps keeps order/repeats) *)
 (*   Node  : [t:"lit",v:Value,rules] [t:"obj",props:<<[k,sc,n]>>,rules]                 *)
 (*           [t:"arr",items:<<Node>>,rules] [t:"ref",names:<<STRING>>,rules]            *)
-(*   Rule  : [n:STRING, v:RV]   RV : [t:"bool",b] [t:"num",b] [t:"id",s] [t:"chars",c]  *)
+(*   Rule  : [n:STRING, v:RV]   RV : [t:"bool",bv] [t:"num",b] [t:"id",s] [t:"chars",c]  *)
 (*           [t:"list",items:<<RV>>] [t:"set",rules:<<Rule>>] [t:"val",v:Value]         *)
 (*   Env   : [types: <<[name, n:Node]>>, enums: <<[name, items:<<Value>>]>>]            *)
 (* Verdicts are three-valued where the property statements are silent: "unspec".       *)
@@ -14,7 +14,7 @@ N == INSTANCE Num
 
 HasRule(node, name) == \E i \in DOMAIN node.rules : node.rules[i].n = name
 RuleV(node, name) == node.rules[CHOOSE i \in DOMAIN node.rules : node.rules[i].n = name].v
-BoolRule(node, name) == HasRule(node, name) /\ RuleV(node, name).t = "bool" /\ RuleV(node, name).b
+BoolRule(node, name) == HasRule(node, name) /\ RuleV(node, name).t = "bool" /\ RuleV(node, name).bv
 Nullable(node) == BoolRule(node, "nullable")
 TypeName(node) == IF HasRule(node, "type") /\ RuleV(node, "type").t = "id" THEN RuleV(node, "type").s ELSE ""
 IsAny(node) == TypeName(node) = "any"
@@ -30,7 +30,7 @@ ExampleKind(node) == KindOfValue(node.v)
 
 \* ---- C01: the rule-free fragment (optional, nullable, type any) ----
 Optional(p, keysOpt) ==
-  IF HasRule(p.n, "optional") THEN RuleV(p.n, "optional").b ELSE keysOpt
+  IF HasRule(p.n, "optional") THEN RuleV(p.n, "optional").bv ELSE keysOpt
 KeysOf(node) == {node.props[i].k : i \in DOMAIN node.props}
 PropOf(node, k) == node.props[CHOOSE i \in DOMAIN node.props : node.props[i].k = k]
 
@@ -55,4 +55,141 @@ AcceptsShape(node, v, keysOpt) ==
               /\ \A j \in DOMAIN node.props :
                    ~Optional(node.props[j], keysOpt) => \E i \in DOMAIN v.ps : v.ps[i].k = node.props[j].k
          [] OTHER -> FALSE
+
+-----------------------------------------------------------------------------------
+(* C02: scalar rules.  Three-valued verdicts: "accept" | "reject" | "unspec".        *)
+And3(S) == IF "reject" \in S THEN "reject" ELSE IF "unspec" \in S THEN "unspec" ELSE "accept"
+B3(b) == IF b THEN "accept" ELSE "reject"
+
+IsAscii(c) == \A i \in DOMAIN c : c[i] < 128
+
+\* ---- regular expressions (abstract syntax, RE2 search semantics on code points) ----
+\* re : [t:"chr",c] [t:"set",cs,neg] [t:"any"] [t:"cat",a,b] [t:"alt",a,b] [t:"opt",a] [t:"star",a] [t:"plus",a] [t:"bol"] [t:"eol"] [t:"eps"]
+RECURSIVE Ends(_, _, _), StarEnds(_, _, _)
+Ends(re, s, i) ==
+  CASE re.t = "chr"  -> IF i < Len(s) /\ s[i + 1] = re.c THEN {i + 1} ELSE {}
+    [] re.t = "set"  -> IF i < Len(s) /\ ((s[i + 1] \in re.cs) # re.neg) THEN {i + 1} ELSE {}
+    [] re.t = "any"  -> IF i < Len(s) /\ s[i + 1] # 10 THEN {i + 1} ELSE {}
+    [] re.t = "cat"  -> UNION {Ends(re.b, s, j) : j \in Ends(re.a, s, i)}
+    [] re.t = "alt"  -> Ends(re.a, s, i) \cup Ends(re.b, s, i)
+    [] re.t = "opt"  -> {i} \cup Ends(re.a, s, i)
+    [] re.t = "star" -> StarEnds(re.a, s, {i})
+    [] re.t = "plus" -> StarEnds(re.a, s, Ends(re.a, s, i))
+    [] re.t = "bol"  -> IF i = 0 THEN {i} ELSE {}
+    [] re.t = "eol"  -> IF i = Len(s) THEN {i} ELSE {}
+    [] OTHER -> {i}
+StarEnds(a, s, S) == LET T == S \cup UNION {Ends(a, s, j) : j \in S} IN IF T = S THEN S ELSE StarEnds(a, s, T)
+Search(re, s) == \E i \in 0..Len(s) : Ends(re, s, i) # {}
+
+\* ---- formats ----
+Dig(c) == c \in 48..57
+DVal(c) == c - 48
+AllDig(s, a, b) == \A i \in a..b : Dig(s[i])
+Num2(s, a) == DVal(s[a]) * 10 + DVal(s[a + 1])
+Num4(s, a) == Num2(s, a) * 100 + Num2(s, a + 2)
+Leap(y) == (y % 4 = 0 /\ y % 100 # 0) \/ y % 400 = 0
+DaysIn(y, m) == IF m = 2 THEN (IF Leap(y) THEN 29 ELSE 28) ELSE IF m \in {4, 6, 9, 11} THEN 30 ELSE 31
+\* s[a..a+9] is YYYY-MM-DD with a real calendar day
+DateShape(s, a) == Len(s) >= a + 9 /\ AllDig(s, a, a + 3) /\ s[a + 4] = 45 /\ AllDig(s, a + 5, a + 6) /\ s[a + 7] = 45 /\ AllDig(s, a + 8, a + 9)
+DateValid(s, a) == LET y == Num4(s, a) m == Num2(s, a + 5) d == Num2(s, a + 8) IN m \in 1..12 /\ d >= 1 /\ d <= DaysIn(y, m)
+DateVerdict(s) == IF Len(s) = 10 /\ DateShape(s, 1) /\ DateValid(s, 1) THEN "accept" ELSE "reject"
+
+\* RFC 3339 date-time, core forms only:  date "T" hh:mm:ss [ "." digits ] ( "Z" | (+|-) hh:mm )
+TimeShape(s, a) == Len(s) >= a + 7 /\ AllDig(s, a, a + 1) /\ s[a + 2] = 58 /\ AllDig(s, a + 3, a + 4) /\ s[a + 5] = 58 /\ AllDig(s, a + 6, a + 7)
+RECURSIVE FracEnd(_, _)
+FracEnd(s, i) == IF i <= Len(s) /\ Dig(s[i]) THEN FracEnd(s, i + 1) ELSE i          \* first index after the digits
+ZoneStart(s) == IF Len(s) >= 20 /\ s[20] = 46 /\ Len(s) >= 21 /\ Dig(s[21]) THEN FracEnd(s, 21) ELSE 20
+ZoneShape(s, z) == Len(s) = z + 5 /\ s[z] \in {43, 45} /\ AllDig(s, z + 1, z + 2) /\ s[z + 3] = 58 /\ AllDig(s, z + 4, z + 5)
+ZoneOK(s, z) == \/ (Len(s) = z /\ s[z] = 90)
+                \/ (ZoneShape(s, z) /\ Num2(s, z + 1) <= 23 /\ Num2(s, z + 4) <= 59)
+DateTimeVerdict(s) ==
+  IF Len(s) < 20 THEN "reject"                                            \* too short to carry date, time and zone
+  ELSE IF ~(DateShape(s, 1) /\ TimeShape(s, 12)) THEN (IF \E i \in DOMAIN s : ~(Dig(s[i]) \/ s[i] \in {45, 58, 46, 43, 84, 90}) THEN "unspec" ELSE "reject")
+  ELSE IF s[11] # 84 THEN "unspec"                                        \* lower-case t, blank: not probed
+  ELSE IF ~DateValid(s, 1) \/ Num2(s, 12) > 23 \/ Num2(s, 15) > 59 THEN "reject"
+  ELSE IF Num2(s, 18) > 59 THEN "unspec"                                  \* leap second
+  ELSE IF ZoneOK(s, ZoneStart(s)) THEN "accept"
+  ELSE IF ZoneShape(s, ZoneStart(s)) THEN "unspec"                        \* numeric offset out of range (+24:00): not probed
+  ELSE IF Len(s) >= ZoneStart(s) /\ s[ZoneStart(s)] \in {122, 44} THEN "unspec"
+  ELSE "reject"
+
+HexC(c) == c \in 48..57 \/ c \in 65..70 \/ c \in 97..102
+UuidVerdict(s) ==
+  IF Len(s) = 36 THEN B3(\A i \in 1..36 : IF i \in {9, 14, 19, 24} THEN s[i] = 45 ELSE HexC(s[i]))
+  ELSE IF Len(s) \in {32, 38, 41, 45} THEN "unspec" ELSE "reject"
+
+\* e-mail and uri: the requirement pins a core accept set and a core reject set by shape; the rest is unspecified
+CountOf(s, c) == Cardinality({i \in DOMAIN s : s[i] = c})
+AlnumC(c) == c \in 48..57 \/ c \in 65..90 \/ c \in 97..122
+IndexOfC(s, c) == CHOOSE i \in DOMAIN s : s[i] = c /\ \A j \in DOMAIN s : s[j] = c => i <= j
+EmailVerdict(s) ==
+  IF s = <<>> \/ CountOf(s, 64) = 0 THEN "reject"                          \* empty, or no @ at all
+  ELSE IF CountOf(s, 64) = 1 /\ (\A i \in DOMAIN s : AlnumC(s[i]) \/ s[i] \in {64, 46}) THEN
+         LET at == IndexOfC(s, 64) IN
+         IF at > 1 /\ at < Len(s) /\ s[1] # 46 /\ s[at - 1] # 46 /\ s[at + 1] # 46 /\ s[Len(s)] # 46
+            /\ (\A i \in 1..(Len(s) - 1) : ~(s[i] = 46 /\ s[i + 1] = 46)) THEN "accept"
+         ELSE IF at = 1 \/ at = Len(s) THEN "reject" ELSE "unspec"
+  ELSE "unspec"
+\* uri: scheme "://" host ... with alnum scheme and host label characters -> accept; no ':' at all or empty -> reject
+StartsWith(s, p) == Len(s) >= Len(p) /\ SubSeq(s, 1, Len(p)) = p
+UriVerdict(s) ==
+  IF s = <<>> \/ CountOf(s, 58) = 0 THEN "reject"
+  ELSE LET c == IndexOfC(s, 58) IN
+       IF c > 1 /\ (\A i \in 1..(c - 1) : s[i] \in 97..122) /\ Len(s) >= c + 3 /\ s[c + 1] = 47 /\ s[c + 2] = 47
+          /\ AlnumC(s[c + 3]) /\ (\A i \in (c + 3)..Len(s) : AlnumC(s[i]) \/ s[i] \in {46, 47, 45, 95})
+       THEN "accept"
+       ELSE IF c = 1 THEN "reject" ELSE "unspec"
+FormatVerdict(f, s) ==
+  CASE f = "date" -> DateVerdict(s) [] f = "datetime" -> DateTimeVerdict(s) [] f = "uuid" -> UuidVerdict(s)
+    [] f = "email" -> EmailVerdict(s) [] f = "uri" -> UriVerdict(s)
+Formats == {"email", "uri", "uuid", "date", "datetime"}
+
+\* ---- membership / equality of scalars (text x kind; numerals of equal value but other spelling: unspecified) ----
+SameScalar(a, b) ==      \* "accept" | "reject" | "unspec"
+  IF a.t # b.t THEN "reject"
+  ELSE CASE a.t = "null" -> "accept"
+         [] a.t = "bool" -> B3(a.bv = b.bv)
+         [] a.t = "str"  -> B3(a.c = b.c)
+         [] a.t = "num"  -> IF a.b = b.b THEN "accept" ELSE IF N!NF(a.b) = N!NF(b.b) THEN "unspec" ELSE "reject"
+         [] OTHER -> "reject"
+Member3(v, items) ==
+  LET vs == {SameScalar(v, items[i]) : i \in DOMAIN items} IN
+  IF "accept" \in vs THEN "accept" ELSE IF "unspec" \in vs THEN "unspec" ELSE "reject"
+
+\* ---- one rule on one scalar value (value already of an admissible kind) ----
+RuleVerdict(node, r, v, enums) ==
+  CASE r.n = "min" -> IF v.t # "num" THEN "reject"
+                      ELSE LET c == N!Cmp(N!NF(v.b), N!NF(r.v.b)) IN B3(IF BoolRule(node, "exclusiveMinimum") THEN c > 0 ELSE c >= 0)
+    [] r.n = "max" -> IF v.t # "num" THEN "reject"
+                      ELSE LET c == N!Cmp(N!NF(v.b), N!NF(r.v.b)) IN B3(IF BoolRule(node, "exclusiveMaximum") THEN c < 0 ELSE c <= 0)
+    [] r.n = "precision" -> IF v.t # "num" THEN "reject" ELSE B3(N!FracLen(N!NF(v.b)) <= N!DigitsToInt(N!TakeDigits(r.v.b), 0))
+    [] r.n = "minLength" -> IF v.t # "str" THEN "reject" ELSE IF ~IsAscii(v.c) THEN "unspec" ELSE B3(Len(v.c) >= N!DigitsToInt(N!TakeDigits(r.v.b), 0))
+    [] r.n = "maxLength" -> IF v.t # "str" THEN "reject" ELSE IF ~IsAscii(v.c) THEN "unspec" ELSE B3(Len(v.c) <= N!DigitsToInt(N!TakeDigits(r.v.b), 0))
+    [] r.n = "regex" -> IF v.t # "str" THEN "reject" ELSE B3(Search(r.v.re, v.c))
+    [] r.n = "const" -> IF r.v.bv THEN SameScalar(v, node.v) ELSE "accept"
+    [] r.n = "type"  -> IF r.v.s \in Formats THEN (IF v.t # "str" THEN "reject" ELSE FormatVerdict(r.v.s, v.c)) ELSE "accept"
+    [] OTHER -> "accept"                 \* optional, nullable, exclusive*, enum (handled by the caller)
+
+EnumItems(node, enums) ==
+  LET rv == RuleV(node, "enum") IN
+  IF rv.t = "name" THEN enums[CHOOSE i \in DOMAIN enums : enums[i].name = rv.s].items
+  ELSE [i \in DOMAIN rv.items |-> rv.items[i].v]
+
+\* admissible kinds of a scalar node without enum: from the example literal (Check forces the type rule to agree with it)
+KindVerdict(node, v) ==
+  LET ek == ExampleKind(node)  vk == KindOfValue(v) IN
+  IF v.t \in {"arr", "obj"} THEN "reject"
+  ELSE IF ek \in {"flt", "flt?"} THEN B3(v.t = "num")
+  ELSE IF ek = "int" THEN (IF v.t # "num" THEN "reject" ELSE IF vk = "int" THEN "accept" ELSE IF vk = "flt?" THEN "unspec" ELSE "reject")
+  ELSE B3(ek = vk)
+
+ScalarVerdict(node, v, enums) ==
+  IF IsAny(node) THEN "accept"
+  ELSE IF v.t = "null" /\ Nullable(node) THEN "accept"               \* admitted null is accepted whatever other rules are present
+  ELSE IF v.t \in {"arr", "obj"} THEN "reject"
+  ELSE IF HasRule(node, "enum") THEN
+         And3({Member3(v, EnumItems(node, enums))} \cup {RuleVerdict(node, node.rules[i], v, enums) : i \in DOMAIN node.rules})
+  ELSE LET k == KindVerdict(node, v) IN
+       IF k = "reject" THEN "reject"
+       ELSE And3({k} \cup {RuleVerdict(node, node.rules[i], v, enums) : i \in DOMAIN node.rules})
 ===================================================================================
